@@ -84,6 +84,10 @@ def extract(repo, profile='dev', target_dir=None, use_cache=True, log=None):
         if use_cache and os.path.exists(ok):
             info = json.load(open(ok))
             info['cached'] = True
+            try:
+                os.utime(os.path.dirname(outdir))
+            except OSError:
+                pass
             return outdir, th, info
         driver = ensure_driver()
         if os.path.isdir(outdir):
@@ -133,9 +137,10 @@ def extract(repo, profile='dev', target_dir=None, use_cache=True, log=None):
         with open(ok, 'w') as fh:
             json.dump(info, fh)
         # keep the cache small: drop fact sets other than the 6 most recent
+        # (never one younger than 20 minutes: a concurrent check of another tree may be about to read it)
         sets = sorted(glob.glob(os.path.join(CACHE, 'facts', '*')), key=os.path.getmtime)
         for old in sets[:-6]:
-            if os.path.basename(old) != tag:
+            if os.path.basename(old) != tag and time.time() - os.path.getmtime(old) > 1200:
                 shutil.rmtree(old, ignore_errors=True)
         return outdir, th, info
     finally:
